@@ -5,7 +5,7 @@ import contextlib
 import io
 import z3
 from . import core
-from .core import modelled, SInt, SBool, SBytes, SStr, SChar, SymTable, EngineLimit, mk_bool, mk_int, _bv, _t8
+from .core import modelled, SInt, SBool, SBytes, SStr, SChar, SymTable, SHexStr, EngineLimit, mk_bool, mk_int, _bv, _t8
 
 _installed = []      # (module, name, had, original)
 _MISSING = object()
@@ -64,6 +64,8 @@ class IntShim(metaclass=_IntMeta):
             return core.s_ite(x, 1, 0)
         if hasattr(x, '__symx_int__'):
             return x.__symx_int__()
+        if isinstance(x, SHexStr) and base == 16 and len(x.c) > 0:
+            return IntShim.from_bytes(x.src, 'big')
         if isinstance(x, (SStr, SChar)):
             return _parse_int(SStr.lift(x), base or 10)
         return int(x) if base is None else int(x, base)
@@ -158,6 +160,8 @@ class BytesShim(metaclass=_BytesMeta):
     def fromhex(x):
         if not isinstance(x, (SStr, SChar)):
             return bytes.fromhex(x)
+        if isinstance(x, SHexStr):
+            return x.src.lower_if_concrete()
         x = SStr.lift(x)
 
         def ishex(c):
